@@ -119,6 +119,8 @@ fn main() {
 struct Cx<'tcx> {
     tcx: TyCtxt<'tcx>,
     filters: Option<Vec<String>>,
+    // ADTs (possibly from other crates) whose discriminant is read somewhere
+    seen_adts: std::cell::RefCell<std::collections::BTreeMap<String, DefId>>,
 }
 
 fn dump_crate<'tcx>(tcx: TyCtxt<'tcx>, dir: &str) {
@@ -130,7 +132,7 @@ fn dump_crate<'tcx>(tcx: TyCtxt<'tcx>, dir: &str) {
         .ok()
         .filter(|x| !x.is_empty())
         .map(|x| x.split(',').map(|y| y.to_string()).collect::<Vec<_>>());
-    let cx = Cx { tcx, filters };
+    let cx = Cx { tcx, filters, seen_adts: Default::default() };
     let mut fns = vec![];
     for &ldid in tcx.mir_keys(()).iter() {
         let kind = tcx.def_kind(ldid);
@@ -232,6 +234,27 @@ fn dump_crate<'tcx>(tcx: TyCtxt<'tcx>, dir: &str) {
             }
             _ => {}
         }
+    }
+    for (path, did) in cx.seen_adts.borrow().iter() {
+        if did.is_local() {
+            continue;
+        }
+        let adt = tcx.adt_def(*did);
+        let mut vars = vec![];
+        for (vi, v) in adt.variants().iter_enumerated() {
+            let discr = adt.discriminant_for_variant(tcx, vi).val;
+            vars.push(J::Obj(vec![
+                ("name", s(v.name.to_string())),
+                ("discr", J::Int(discr as i128)),
+                ("fields", J::Arr(vec![])),
+            ]));
+        }
+        adts.push(J::Obj(vec![
+            ("path", s(path.clone())),
+            ("enum", J::Bool(true)),
+            ("external", J::Bool(true)),
+            ("variants", J::Arr(vars)),
+        ]));
     }
     let args: Vec<String> = std::env::args().collect();
     let is_test = args.iter().any(|a| a == "--test");
@@ -580,7 +603,17 @@ impl<'tcx> Cx<'tcx> {
                 ("k", s("use")),
                 ("op", J::Obj(vec![("k", s("copy")), ("p", self.place(body, p))])),
             ]),
-            Rvalue::Discriminant(p) => J::Obj(vec![("k", s("discr")), ("p", self.place(body, p))]),
+            Rvalue::Discriminant(p) => {
+                let pty = p.ty(&body.local_decls, tcx).ty;
+                if let ty::Adt(adt, _) = pty.kind() {
+                    if adt.is_enum() {
+                        self.seen_adts
+                            .borrow_mut()
+                            .insert(tcx.def_path_str(adt.did()), adt.did());
+                    }
+                }
+                J::Obj(vec![("k", s("discr")), ("p", self.place(body, p))])
+            }
             Rvalue::BinaryOp(op, b) => {
                 let (l, r) = &**b;
                 J::Obj(vec![
